@@ -24,3 +24,94 @@ Proof. exact C03_value_render_final. Qed.
 
 Print Assumptions C04_value.
 Print Assumptions C04_value_pretty_same_tree.
+
+(* ---- typed half (Proofs/TypedRoundtrip*.v): for every type program t of the universe (bool, integers, floats, char, String, &str, unit, Option,
+   newtype, Vec, tuples, maps with str/int/bool/char keys, structs, enums with the four variant kinds) and every datum d of type t, the compact
+   text the serialiser prints for d reads back, as type t, to d (C04_typed: floats under the per-leaf hypothesis that the printed text ALONE
+   parses to the same float — the ryu hypothesis of C04_value; C04_typed_no_float: no hypothesis at all; _norm: what reads back when Some(x)
+   prints as null; _io: through a reader) ---- *)
+From SJ Require Import Model.Ty Model.DeTyped Model.SerTyped.
+Close Scope N_scope. Close Scope Z_scope. Open Scope nat_scope.   (* the statements below are printed by Coq in the default scopes *)
+From SJ Require Proofs.TypedRoundtripF32.
+Theorem C04_typed :
+  forall (cf : Read.cfg) (fmt32 fmt64 : BinNums.N ->
+  list BinNums.N) (t : Ty.ty) (d : Ty.dval) (sv : Sval.sval) (bufs : list (list BinNums.N)), SerTyped.in_universe t = true ->
+  SerTyped.has_type t d = true ->
+  SerTyped.roundtrip_safe t d = true ->
+  List.Forall (TypedRoundtripF32.float_text_alone cf fmt32 fmt64) (SerTyped.float_leaves t d) ->
+  SerTyped.sval_of_dval t d = Some sv ->
+  Ser.serialize cf fmt32 fmt64 Ser.Compact sv = Bytes.Ok bufs ->
+  (Read.limit_disabled cf = false ->
+  SerTyped.nest t d <= 127) ->
+  exists d' : Ty.dval, DeTyped.from_input_typed {| Read.rk := Read.RSlice; Read.tm := Read.TEof; Read.cf := cf |} t (List.concat bufs) = DeTyped.TOk d' /\ TypedRk.unb d' = TypedRk.unb d.
+Proof. exact (@TypedRoundtripF32.C04_typed_text). Qed.
+Print Assumptions C04_typed.
+
+Theorem C04_typed_norm :
+  forall (cf : Read.cfg) (fmt32 fmt64 : BinNums.N ->
+  list BinNums.N) (t : Ty.ty) (d : Ty.dval) (sv : Sval.sval) (bufs : list (list BinNums.N)), SerTyped.in_universe t = true ->
+  SerTyped.has_type t d = true ->
+  SerTyped.str_safe t d = true ->
+  List.Forall (TypedRoundtripF32.float_text_alone cf fmt32 fmt64) (SerTyped.float_leaves t d) ->
+  SerTyped.sval_of_dval t d = Some sv ->
+  Ser.serialize cf fmt32 fmt64 Ser.Compact sv = Bytes.Ok bufs ->
+  (Read.limit_disabled cf = false ->
+  SerTyped.nest t d <= 127) ->
+  exists d' : Ty.dval, DeTyped.from_input_typed {| Read.rk := Read.RSlice; Read.tm := Read.TEof; Read.cf := cf |} t (List.concat bufs) = DeTyped.TOk d' /\ TypedRk.unb d' = TypedRk.unb (SerTyped.norm t d).
+Proof. exact (@TypedRoundtripF32.C04_typed_text_norm). Qed.
+Print Assumptions C04_typed_norm.
+
+Theorem C04_typed_io :
+  forall (cf : Read.cfg) (fmt32 fmt64 : BinNums.N ->
+  list BinNums.N) (t : Ty.ty) (d : Ty.dval) (sv : Sval.sval) (bufs : list (list BinNums.N)), SerTyped.in_universe t = true ->
+  TypedRk.owned_ty t = true ->
+  SerTyped.has_type t d = true ->
+  SerTyped.roundtrip_safe t d = true ->
+  List.Forall (TypedRoundtripF32.float_text_alone cf fmt32 fmt64) (SerTyped.float_leaves t d) ->
+  SerTyped.sval_of_dval t d = Some sv ->
+  Ser.serialize cf fmt32 fmt64 Ser.Compact sv = Bytes.Ok bufs ->
+  (Read.limit_disabled cf = false ->
+  SerTyped.nest t d <= 127) ->
+  exists d' : Ty.dval, DeTyped.from_input_typed {| Read.rk := Read.RIo; Read.tm := Read.TEof; Read.cf := cf |} t (List.concat bufs) = DeTyped.TOk d' /\ TypedRk.unb d' = TypedRk.unb d.
+Proof. exact (@TypedRoundtripF32.C04_typed_io). Qed.
+Print Assumptions C04_typed_io.
+
+From SJ Require Proofs.TypedRoundtripFloat.
+Theorem C04_typed_no_float :
+  forall (cf : Read.cfg) (fmt32 fmt64 : BinNums.N ->
+  list BinNums.N) (t : Ty.ty) (d : Ty.dval) (sv : Sval.sval) (bufs : list (list BinNums.N)), SerTyped.in_universe t = true ->
+  SerTyped.no_float t = true ->
+  SerTyped.has_type t d = true ->
+  SerTyped.roundtrip_safe t d = true ->
+  SerTyped.sval_of_dval t d = Some sv ->
+  Ser.serialize cf fmt32 fmt64 Ser.Compact sv = Bytes.Ok bufs ->
+  (Read.limit_disabled cf = false ->
+  SerTyped.nest t d <= 127) ->
+  exists d' : Ty.dval, DeTyped.from_input_typed {| Read.rk := Read.RSlice; Read.tm := Read.TEof; Read.cf := cf |} t (List.concat bufs) = DeTyped.TOk d' /\ TypedRk.unb d' = TypedRk.unb d.
+Proof. exact (@TypedRoundtripFloat.C04_typed_no_float). Qed.
+Print Assumptions C04_typed_no_float.
+
+From SJ Require Proofs.TypedRoundtripMain.
+Theorem C04_typed_some_null :
+  forall (cf : Read.cfg) (fmt32 fmt64 : BinNums.N ->
+  list BinNums.N) (t : Ty.ty) (d : Ty.dval) (sv : Sval.sval) (bufs : list (list BinNums.N)), SerTyped.in_universe t = true ->
+  SerTyped.has_type t d = true ->
+  SerTyped.prints_null t d = true ->
+  SerTyped.sval_of_dval (Ty.TOption t) (Ty.DSome d) = Some sv ->
+  Ser.serialize cf fmt32 fmt64 Ser.Compact sv = Bytes.Ok bufs ->
+  DeTyped.from_input_typed {| Read.rk := Read.RSlice; Read.tm := Read.TEof; Read.cf := cf |} (Ty.TOption t) (List.concat bufs) = DeTyped.TOk Ty.DNone.
+Proof. exact (@TypedRoundtripMain.C04_typed_some_null). Qed.
+Print Assumptions C04_typed_some_null.
+
+Theorem C04_typed_total :
+  forall (cf : Read.cfg) (fmt32 fmt64 : BinNums.N ->
+  list BinNums.N) (t : Ty.ty) (d : Ty.dval), SerTyped.in_universe t = true ->
+  SerTyped.has_type t d = true ->
+  SerTyped.roundtrip_safe t d = true ->
+  TypedRoundtripMain.floats_ok cf fmt32 fmt64 t d ->
+  (Read.limit_disabled cf = false ->
+  SerTyped.nest t d <= 127) ->
+  exists (sv : Sval.sval) (bufs : list (list BinNums.N)) (d' : Ty.dval), SerTyped.sval_of_dval t d = Some sv /\ Ser.serialize cf fmt32 fmt64 Ser.Compact sv = Bytes.Ok bufs /\ DeTyped.from_input_typed {| Read.rk := Read.RSlice; Read.tm := Read.TEof; Read.cf := cf |} t (List.concat bufs) = DeTyped.TOk d' /\ TypedRk.unb d' = TypedRk.unb d.
+Proof. exact (@TypedRoundtripMain.C04_typed_total). Qed.
+Print Assumptions C04_typed_total.
+
